@@ -38,6 +38,8 @@ def gen_cases(tier, seed):
         cases.append({"kind": "1d", "cfg": {"degree": 3, "ncells": nc, "periodic": False, "kind": "uniform", "fast": True, "uniform_flag": True, "seed": nc}, "seed": nc})
     for p in range(1, 6):
         cases.append({"kind": "1d", "cfg": {"degree": p, "ncells": p + 1, "periodic": True, "kind": "graded", "fast": False, "uniform_flag": False, "seed": 10 + p}, "seed": 10 + p})
+        cases.append({"kind": "1d", "cfg": {"degree": p, "ncells": p, "periodic": True, "kind": "random", "fast": False, "uniform_flag": False, "seed": 40 + p}, "seed": 40 + p})
+        cases.append({"kind": "1d", "cfg": {"degree": p, "ncells": p, "periodic": True, "kind": "uniform", "fast": p == 3, "uniform_flag": True, "seed": 50 + p}, "seed": 50 + p})
         cases.append({"kind": "1d", "cfg": {"degree": p, "ncells": 1, "periodic": False, "kind": "uniform", "fast": False, "uniform_flag": False, "seed": 20 + p}, "seed": 20 + p})
     for k in range(260 if tier == "quick" else 10000):
         cfg = splgen.random_cfg(rng, max_degree=5)
